@@ -251,7 +251,7 @@ var soupOps = []string{"a", "(", ")", ",", "=", "by", "kind", "inner", "on", "wi
 var soupOpContexts = []string{"T | join %s", "T | join kind = %s", "T | join (U) %s", "T | render %s", "T | render x with (%s", "T | take %s", "T | as %s", "T | %s", "%s", "T | sort by a %s", "T | top %s", "T | summarize a %s", "let %s"}
 
 // soupBrackets: a small alphabet taken to greater length.
-var soupBrackets = []string{"a", "[", "]", "(", "1"}
+var soupBrackets = []string{"a", "[", "]", "(", "1", ".", "'s'"}
 var soupBracketContexts = []string{"T | where %s", "T | extend x = %s ) | count"}
 
 // enumSoups calls f for every space-joined sequence of 0..maxLen alphabet
@@ -398,7 +398,7 @@ func TestC08Exhaustive(t *testing.T) {
 	for _, p := range passes {
 		bound += fmt.Sprintf("all sequences of <= %d tokens over %q; ", p.maxLen, p.alphabet)
 	}
-	st.SetExhaustive(bound + fmt.Sprintf("each spliced into %q; plus all sequences of <= %d tokens over %q spliced into %q; plus all sequences of <= %d tokens over %q spliced into %q", soupContexts, env.Pick(3, 4), soupOps, soupOpContexts, env.Pick(8, 9), soupBrackets, soupBracketContexts))
+	st.SetExhaustive(bound + fmt.Sprintf("each spliced into %q; plus all sequences of <= %d tokens over %q spliced into %q; plus all sequences of <= %d tokens over %q spliced into %q", soupContexts, env.Pick(3, 4), soupOps, soupOpContexts, env.Pick(7, 8), soupBrackets, soupBracketContexts))
 	failed := false
 	type ctxPass struct {
 		pass
@@ -410,7 +410,7 @@ func TestC08Exhaustive(t *testing.T) {
 	}
 	all = append(all, ctxPass{pass{soupOps, env.Pick(3, 4)}, soupOpContexts})
 	// longer sequences over brackets only: chained and nested indexing, calls
-	all = append(all, ctxPass{pass{soupBrackets, env.Pick(8, 9)}, soupBracketContexts})
+	all = append(all, ctxPass{pass{soupBrackets, env.Pick(7, 8)}, soupBracketContexts})
 	for _, p := range all {
 		contexts := p.contexts
 		enumSoups(p.alphabet, p.maxLen, env.Shard, env.NShards, func(soup string) {
